@@ -234,18 +234,19 @@ def strat_poisson_large(ctx):
 def check_poisson_large(ctx, cc):
     c = cc["case"]
     K = len(c["sys"]["state"]["values"])
-    N = max(200, (60000 if ctx.tier == "quick" else 400000) // K)
+    N = max(200, (60000 if ctx.tier == "quick" else 120000) // K)
     given, _ = engine_input(c)
     means = [float(v) if c["engine"] != "euler" else float(v) * float(si.QUANTITY[c["out_q"]]) for v in given]
     ctx.note(cc, True, ["poisson-large", "engine:" + c["engine"], "space:" + c["sys"]["space"]["type"]])
     seeds = [(cc["seed0"] + 7919 * k) % (2 ** 32) for k in range(N)]
-    job = {"scripts": [script_of(c)], "calls": [["new", "E", c["engine"]], ["sample0", "E", 0, seeds]]}
-    res = run_job(job, "Poisson-mode set-up of %s (%d seeds)" % (c["engine"], N))
     scale = float(si.QUANTITY[c["out_q"]])
     tot = 0.0
-    for smp in res[1]["r"]:
-        for t in range(K):
-            tot += round(smp[t] * scale)
+    for lo in range(0, N, 500):       # small jobs: the time-out of a job is a hang detector, not a budget
+        job = {"scripts": [script_of(c)], "calls": [["new", "E", c["engine"]], ["sample0", "E", 0, seeds[lo:lo + 500]]]}
+        res = run_job(job, "Poisson-mode set-up of %s (%d seeds)" % (c["engine"], len(seeds[lo:lo + 500])))
+        for smp in res[1]["r"]:
+            for t in range(K):
+                tot += round(smp[t] * scale)
     want = N * sum(means)
     z = (tot - want) / math.sqrt(want)
     ctx.count("poisson-large:draws", N * K)
@@ -321,10 +322,10 @@ def check_poisson(ctx, cc):
             raise Violation("Poisson mode: entries are correlated (pooled z = %.1f)" % z, key="poisson:independence")
 
 
-RULE = RULE + " " + ("Since seeded round 5 the script is built through four routes (constructor / dictionary reader, mode spelled out / left to the default when it is 'auto'); facet poisson_large pools >= 60000 Poisson-mode draws (400000 in the thorough tier) over entries with real amounts in 100..160 and tests the pooled mean (a bias of half a molecule is ~10 sigma).")
+RULE = RULE + " " + ("Since seeded round 5 the script is built through four routes (constructor / dictionary reader, mode spelled out / left to the default when it is 'auto'); facet poisson_large pools >= 60000 Poisson-mode draws (120000 in the thorough tier) over entries with real amounts in 100..160 and tests the pooled mean (a bias of half a molecule is ~10 sigma).")
 
 FACETS = [
     Facet("state", check_state, strategy=strat_state, examples=(1600, 40000), shards=(16, 16), setup=setup, native=True, shrink=True),
     Facet("poisson", check_poisson, strategy=strat_poisson, examples=(96, 1500), shards=(8, 16), setup=setup, native=True),
-    Facet("poisson_large", check_poisson_large, strategy=strat_poisson_large, examples=(16, 96), shards=(8, 16), setup=setup, native=True, shrink=False),
+    Facet("poisson_large", check_poisson_large, strategy=strat_poisson_large, examples=(16, 32), shards=(8, 16), setup=setup, native=True, shrink=False),
 ]
